@@ -15,6 +15,7 @@ def run(ctx):
     ctx.run(OP.pan5_result_type_lattice_total)
     ctx.run(OP.nul4_in_place_null_map_moves_write_both_outcomes)
     ctx.run(OP.who5_in_place_operators)
+    ctx.run(OP.pan8_range_arithmetic)
     return ctx.finish(
         'Syntax-tree table rules: an aggregate keeps its kind from the SQL text (COUNT/SUM/MIN/MAX, '
         'AVG = SUM / COUNT) through the planner to the operator; each aggregator marker type accumulates '
